@@ -259,6 +259,8 @@ pub fn catalogue() -> Vec<ARecord> {
         rec("_mysrv.local", 3, a(0x0a000004)),
         rec("_my.local", 1, ARData::Typed { code: 8, fields: vec![Val::Name(n("bar.foo"))] }),
         rec("foobar", 1, ARData::Typed { code: 9, fields: vec![Val::Name(n("foo.bar"))] }),
+        // the CHAOS-class twin of the first record (same owner, same rdata)
+        rec("foobar", 3, a(0x0a000001)),
     ]
 }
 
@@ -391,8 +393,24 @@ fn hist_strategy(_t: Tier) -> BoxedStrategy<Hist> {
                     match o {
                         Op::Remove(r) => {
                             if k % 2 == 0 {
+                                // the same record as far as identity goes (owner, class, rdata), possibly with
+                                // another TTL or cache-flush bit
+                                let flip = r.cache_flush;
+                                let ttl = r.ttl;
                                 *r = added[(r.ttl as usize + k) % added.len()].clone();
+                                if k % 4 == 0 {
+                                    r.cache_flush ^= flip;
+                                    r.ttl = ttl;
+                                }
                             }
+                            k += 1;
+                        }
+                        // registrations of the class twin of an earlier record
+                        Op::AddAuth(r) if k % 5 == 3 => {
+                            let twin = added[(r.ttl as usize + k) % added.len()].clone();
+                            r.name = twin.name;
+                            r.rdata = twin.rdata;
+                            r.class = if twin.class == 1 { 3 } else { 1 };
                             k += 1;
                         }
                         // receptions of a record that is (or was) also registered: same owner, class and rdata,
@@ -419,7 +437,7 @@ pub fn def() -> CheckDef {
     let _ = gen::pick(0, 1);
     CheckDef {
         id: "C13",
-        rule: "model-based: a set-based reference store (key = owner, class, rdata; kind authoritative / cached / ambiguous) and an independent matcher give, for every query, a lower bound (authoritative records whose owner equals a question name and that match its type and class: must be answered) and an upper bound (authoritative or ambiguous records whose owner equals or is a label-wise subdomain of a question name and match: may be answered); additional records must be registered A/AAAA records owned by the target of an SRV answer; id, response flag, unicast = OR of the questions' bits; no reply iff nothing may be answered. (1) bounded-exhaustive: every subset of <= 3 (4 thorough) records of a 14-record catalogue whose names collide under concatenation and byte-prefixing (foobar / bar.foo / foo.bar, _my.local / _mysrv.local, a.b.local / ba.local) x 360 single questions (12 names x 10 QTYPEs x 3 QCLASSes) and a sample of question pairs; (2) random histories of add-authoritative / add-cached / remove / clear over 1..3-label names from {a,b,ab,ba,_my,_mysrv,foo,bar,foobar,local} with A, AAAA, SRV, TXT, PTR, MB, MG, MR, MX, NULL, unknown RDATA, classes IN/CH, and 0..2 questions over 13 QTYPEs x {IN, CH, ANY} x unicast. Non-trivial = the store is non-empty and a question name is a byte-prefix (after concatenation) of a different, non-subdomain registered name",
+        rule: "model-based: a set-based reference store (key = owner, class, rdata; kind authoritative / cached / ambiguous) and an independent matcher give, for every query, a lower bound (authoritative records whose owner equals a question name and that match its type and class: must be answered) and an upper bound (authoritative or ambiguous records whose owner equals or is a label-wise subdomain of a question name and match: may be answered); additional records must be registered A/AAAA records owned by the target of an SRV answer; id, response flag, unicast = OR of the questions' bits; no reply iff nothing may be answered. (1) bounded-exhaustive: every subset of <= 3 (4 thorough) records of a 15-record catalogue whose names collide under concatenation and byte-prefixing (foobar / bar.foo / foo.bar, _my.local / _mysrv.local, a.b.local / ba.local) x 360 single questions (12 names x 10 QTYPEs x 3 QCLASSes) and a sample of question pairs; (2) random histories of add-authoritative / add-cached / remove / clear over 1..3-label names from {a,b,ab,ba,_my,_mysrv,foo,bar,foobar,local} with A, AAAA, SRV, TXT, PTR, MB, MG, MR, MX, NULL, unknown RDATA, classes IN/CH, and 0..2 questions over 13 QTYPEs x {IN, CH, ANY} x unicast. Non-trivial = the store is non-empty and a question name is a byte-prefix (after concatenation) of a different, non-subdomain registered name",
         assumptions: vec![
             "lowercase names only (case-sensitivity of name equality is not part of the statement)",
             "MAILA / AXFR / IXFR: the statement is silent; such questions never require an answer and admit any type",
